@@ -173,13 +173,13 @@ def _run(ops):
 
 def lemmas(tier):
     q = tier == "quick"
-    HMAX[0] = 4 if q else 6
+    HMAX[0] = 4 if q else 5
     L = []
     for first in range(len(OPS)):
         if OPS[first] in ("exit", "exit-exc", "enter-precreated"):
             continue      # a history cannot start by leaving a context; a pre-created manager entered first is a plain enter
         fn = make_history(first)
-        L.append(Lemma(fn.__name__, fn, timeout=300 if q else 3000, dry=[{"h": [4, 7, 5]}, {"h": [4, 4, 6]}, {"h": [8, 3, 7]}, {"h": [1, 5, 3]}, {"h": [4, 2, 6]}, {"h": [9, 5, 7]}, {"h": [9, 9, 5]}],
+        L.append(Lemma(fn.__name__, fn, timeout=300 if q else 1500, dry=[{"h": [4, 7, 5]}, {"h": [4, 4, 6]}, {"h": [8, 3, 7]}, {"h": [1, 5, 3]}, {"h": [4, 2, 6]}, {"h": [9, 5, 7]}, {"h": [9, 9, 5]}],
                        doc={"F": ["histories starting with %r, length <= %d over %s" % (OPS[first], HMAX[0], OPS)],
                             "bound": "length <= %d, context depth <= 3, then one with-statement round trip (exit by exception) from the final state" % HMAX[0]}))
     return L
